@@ -67,6 +67,9 @@ func runJobs(jobs []job, workers int, mkMon func(*Stats) *Mon) *Stats {
 			defer wg.Done()
 			a := NewApp()
 			st := NewStats()
+			statsMu.Lock()
+			allStats = append(allStats, st)
+			statsMu.Unlock()
 			for j := range ch {
 				mon := mkMon(st)
 				func() {
@@ -132,6 +135,32 @@ func cmdRun(args []string) {
 	go func() {
 		time.Sleep(limit)
 		atomic.StoreInt32(&watchdogFired, 1)
+		// steps become no-ops now; if some step never returns, report what the monitors have
+		// seen so far and leave
+		time.Sleep(90 * time.Second)
+		statsMu.Lock()
+		partial := NewStats()
+		for _, st := range allStats {
+			partial.Violations = append(partial.Violations, st.Violations...)
+			for k, v := range st.VioHist {
+				if _, ok := partial.VioHist[k]; !ok {
+					partial.VioHist[k], partial.VioBy[k] = v, st.VioBy[k]
+				}
+			}
+		}
+		kf := loadKnown(filepath.Join(*outDir, "known_findings.json"))
+		props := []string{*prop}
+		if *prop == "all" {
+			props = allProps
+		}
+		code := 3
+		for _, p := range props {
+			if reportViolations(p, *seed, partial, kf, *outDir) > 0 {
+				code = 1
+			}
+		}
+		fmt.Printf("INCONCLUSIVE watchdog: a step did not return within %s + 90 s (hang); violations observed until then are listed above\n", limit)
+		os.Exit(code)
 	}()
 	n := 500
 	if *tier == "thorough" {
@@ -195,7 +224,38 @@ func cmdRun(args []string) {
 
 var allProps = []string{"C01", "C02", "C03", "C04", "C05", "C06", "C07", "C08", "C09", "C10", "C11", "C12", "C13", "C14", "C15", "C16", "C17", "C18", "C19", "C20"}
 
+// reportViolations prints the VIOLATION / KNOWN-FINDING lines of one property and returns
+// the number of unlisted violations.
+func reportViolations(p string, seed int64, stats *Stats, kf KnownFile, outDir string) int {
+	n, _ := reportViolationsK(p, seed, stats, kf, outDir)
+	return n
+}
+
 func report(p, tier string, seed int64, stats *Stats, kf KnownFile, outDir string, wall time.Duration, verbose bool) int {
+	nViol, nKnown := reportViolationsK(p, seed, stats, kf, outDir)
+	exit := 0
+	if nViol > 0 {
+		exit = 1
+	}
+	// mandatory non-vacuity
+	var missing []string
+	for _, r := range mandatory[p] {
+		if stats.Hits[p+"/"+r] == 0 {
+			missing = append(missing, r)
+		}
+	}
+	if len(missing) > 0 && exit == 0 {
+		fmt.Printf("INCONCLUSIVE property=%s rules without a non-vacuous observation: %v\n", p, missing)
+		exit = 3
+	}
+	writeEvidence(p, tier, seed, stats, outDir, wall, nViol, missing)
+	if verbose || exit == 0 {
+		fmt.Printf("%s: evaluations=%d distinct-situations=%d histories=%d steps=%d violations=%d known=%d\n", p, stats.Evaluations[p], len(stats.Situations[p]), stats.Histories, stats.Steps, nViol, nKnown)
+	}
+	return exit
+}
+
+func reportViolationsK(p string, seed int64, stats *Stats, kf KnownFile, outDir string) (int, int) {
 	// distinct violations of this property by signature
 	bySig := map[string]Violation{}
 	count := map[string]int{}
@@ -213,7 +273,6 @@ func report(p, tier string, seed int64, stats *Stats, kf KnownFile, outDir strin
 		sigs = append(sigs, s)
 	}
 	sort.Strings(sigs)
-	exit := 0
 	nViol := 0
 	knownSeen := map[string]bool{}
 	os.MkdirAll(filepath.Join(outDir, "replays"), 0o755)
@@ -237,24 +296,8 @@ func report(p, tier string, seed int64, stats *Stats, kf KnownFile, outDir strin
 		}
 		fmt.Printf("VIOLATION property=%s replay=%s\n", p, path)
 		fmt.Printf("  signature=%s histories=%d first=%s step=%d\n  %s\n", s, count[s], v.History, v.StepIdx, v.Msg)
-		exit = 1
 	}
-	// mandatory non-vacuity
-	var missing []string
-	for _, r := range mandatory[p] {
-		if stats.Hits[p+"/"+r] == 0 {
-			missing = append(missing, r)
-		}
-	}
-	if len(missing) > 0 && exit == 0 {
-		fmt.Printf("INCONCLUSIVE property=%s rules without a non-vacuous observation: %v\n", p, missing)
-		exit = 3
-	}
-	writeEvidence(p, tier, seed, stats, outDir, wall, nViol, missing)
-	if verbose || exit == 0 {
-		fmt.Printf("%s: evaluations=%d distinct-situations=%d histories=%d steps=%d violations=%d known=%d\n", p, stats.Evaluations[p], len(stats.Situations[p]), stats.Histories, stats.Steps, nViol, len(knownSeen))
-	}
-	return exit
+	return nViol, len(knownSeen)
 }
 
 func sanitize(s string) string {
